@@ -49,6 +49,8 @@ def build(case):
         df.index = [f"r{i}" for i in range(len(df))]
     elif case.get("index") == "rev":
         df.index = list(range(len(df)))[::-1]
+    elif case.get("index") == "dup":
+        df.index = [i % 3 for i in range(len(df))]        # per-donor tables concatenated without ignore_index: labels repeat
     return df
 
 
@@ -311,7 +313,7 @@ def table_case(draw, tier="quick"):
     rows = list(draw(st.permutations(rows)))
     case = {"rows": rows, "nby": nby, "on": draw(st.sampled_from(["lab", "seq", ["lab", "seq"]])),
             "bins": draw(st.sampled_from([0, 0, [0, 1, 2, 3], [0, 1, 2, 4, 8], [1, 2, 3], [0, 2, 20]])),
-            "index": draw(st.sampled_from(["default", "str", "rev"])), "by_as_list": draw(st.booleans()),
+            "index": draw(st.sampled_from(["default", "str", "rev", "dup"])), "by_as_list": draw(st.booleans()),
             "maxseqs_noop": draw(st.booleans()), "by_name_contains_features": draw(st.booleans())}
     if draw(st.booleans()):
         case["weights"] = draw(st.lists(st.sampled_from([0.5, 1, 2, 3, 1.25, 10]), min_size=6, max_size=12))
